@@ -67,6 +67,15 @@ LONG = [
 
 
 def run(ctx, log):
+    # stray `stop` / `volgende` under every nesting of loops, functions, blocks and branches
+    sj = progcheck.stray_jump_family(ctx.quick, ctx.rng)
+    sjo = progcheck.pipeline(ctx, sj, log, budget=20000, label="stray-jumps", shard_size=120)
+    for s_, o_ in zip(sj, sjo["eval"]):
+        ctx.seen(("stray-jump", s_))
+        ctx.count("stray-jump:" + progcheck.head(o_).split()[0] + (progcheck.head(o_)[3:] if o_.startswith("ERR") else ""))
+    # the same small programs at every size around the widths the implementation encodes things in (closed-form results)
+    progcheck.run_scale(ctx, log, ['statements', 'nesting'])
+    progcheck.run_code_boundary(ctx, log)
     rng = ctx.rng
     progs = programs(2 if ctx.quick else 3)
     ctx.exhaustive = True
